@@ -82,7 +82,7 @@ PROPS = {
     },
     "C16": {
         "suites": [("proc", 100, 1000), ("wire", 60, 400)],
-        "title": "foreign SYN answered by BadCluster only, state untouched but the own heartbeat; rejection terminal",
+        "title": "foreign SYN answered by BadCluster only, state untouched but the own heartbeat; rejection terminal; over every schedule of a routed network (loss, duplication, reordering, cross-cluster SYNs) no node ever holds a copy of a member of a cluster with a different id",
     },
     "C17": {
         "suites": [("select", 60, 600)],
